@@ -44,7 +44,9 @@ func ser(t *rapid.T, ls ...gopacket.SerializableLayer) []byte {
 // payload generator: 0..200 bytes, biased towards tails of 0xFF (pad scanner)
 func genPayload() *rapid.Generator[[]byte] {
 	return rapid.Custom(func(t *rapid.T) []byte {
-		p := rapid.SliceOfN(rapid.Byte(), 0, 200).Draw(t, "payload")
+		// lengths spread evenly over 0..200 (rapid's own slice lengths favour short ones)
+		n := int(rapid.Uint16().Draw(t, "payloadLen")) % 201
+		p := rapid.SliceOfN(rapid.Byte(), n, n).Draw(t, "payload")
 		if rapid.IntRange(0, 3).Draw(t, "ffTail") == 0 {
 			n := rapid.IntRange(0, 6).Draw(t, "ffs")
 			for i := 0; i < n && i < len(p); i++ {
